@@ -349,7 +349,7 @@ var fixedTemplates = []string{
 
 type runOut struct {
 	Stages  []stageOut
-	FlowPtr []string // for every flow of the scenario: identity of the object Flows().Get returned ("" = error)
+	FlowPtr []string  // for every flow of the scenario: identity of the object Flows().Get returned ("" = error)
 	T0      time.Time // released by the barrier
 	T1      time.Time // first engine call (NewSession: loads the cold flow) done
 	T2      time.Time // done
@@ -646,34 +646,40 @@ func childMain(specPath string) {
 	httpx.SetRequestor(cannedRequestor{})
 
 	if spec.Mode == "solo" {
-		sc := byName[spec.Scenarios[0]]
-		if sc == nil || spec.Script >= len(sc.Scripts) {
-			panic("unknown scenario/script")
-		}
-		var two [2]*runOut
-		for rep := 0; rep < 2; rep++ {
-			random.SetGenerator(random.NewSeededGenerator(int64(spec.Seed)*7 + int64(rep) + 1))
-			sa, err := coldAssets(sc)
-			if err != nil {
-				panic(fmt.Sprintf("scenario %s: %v", sc.Name, err))
+		// every script that a goroutine of some round will drive, ALONE: one goroutine, its own cold SessionAssets
+		for _, name := range spec.Scenarios {
+			sc := byName[name]
+			if sc == nil {
+				panic("unknown scenario " + name)
 			}
-			two[rep] = runScript(sa, newEngine(), sc, &sc.Scripts[spec.Script], string(sc.Assets))
-		}
-		sr := soloResult{Scenario: sc.Name, Script: sc.Scripts[spec.Script].Name, Stages: two[0].Stages, Done: true}
-		if i := firstDiff(two[0].Stages, two[1].Stages); i >= 0 {
-			sr.Nondet = true
-			if i < len(two[0].Stages) {
-				sr.NondetAt = two[0].Stages[i].Stage
+			for k := 0; k < len(sc.Scripts) && k < spec.N; k++ {
+				var two [2]*runOut
+				for rep := 0; rep < 2; rep++ {
+					random.SetGenerator(random.NewSeededGenerator(int64(spec.Seed)*7 + int64(rep) + 1))
+					sa, err := coldAssets(sc)
+					if err != nil {
+						panic(fmt.Sprintf("scenario %s: %v", sc.Name, err))
+					}
+					two[rep] = runScript(sa, newEngine(), sc, &sc.Scripts[k], string(sc.Assets))
+				}
+				sr := soloResult{Scenario: sc.Name, Script: sc.Scripts[k].Name, Stages: two[0].Stages, Done: true}
+				if i := firstDiff(two[0].Stages, two[1].Stages); i >= 0 {
+					sr.Nondet = true
+					if i < len(two[0].Stages) {
+						sr.NondetAt = two[0].Stages[i].Stage
+					}
+				}
+				writeJSON(soloPath(spec.SoloDir, sc.Name, k), sr)
 			}
 		}
-		writeJSON(spec.Out, sr)
+		writeJSON(spec.Out, map[string]any{"done": true})
 		return
 	}
 
 	res := &childResult{Index: spec.Index, Globals: map[string][2]int{
-		"cases.FalseResult":       {int(uintptr(unsafe.Pointer(cases.FalseResult))), int(unsafe.Sizeof(*cases.FalseResult))},
-		"types.XObjectEmpty":      {int(uintptr(unsafe.Pointer(types.XObjectEmpty))), int(unsafe.Sizeof(*types.XObjectEmpty))},
-		"types.XArrayEmpty":       {int(uintptr(unsafe.Pointer(types.XArrayEmpty))), int(unsafe.Sizeof(*types.XArrayEmpty))},
+		"cases.FalseResult":        {int(uintptr(unsafe.Pointer(cases.FalseResult))), int(unsafe.Sizeof(*cases.FalseResult))},
+		"types.XObjectEmpty":       {int(uintptr(unsafe.Pointer(types.XObjectEmpty))), int(unsafe.Sizeof(*types.XObjectEmpty))},
+		"types.XArrayEmpty":        {int(uintptr(unsafe.Pointer(types.XArrayEmpty))), int(unsafe.Sizeof(*types.XArrayEmpty))},
 		"envs.DefaultNumberFormat": {int(uintptr(unsafe.Pointer(envs.DefaultNumberFormat))), int(unsafe.Sizeof(*envs.DefaultNumberFormat))},
 	}}
 
@@ -806,7 +812,7 @@ func diffWindow(a, b string) (string, string) {
 // race reports
 
 type access struct {
-	Kind   string   // read | write
+	Kind   string // read | write
 	Addr   uint64
 	Frames []string // function names, innermost first
 }
@@ -984,8 +990,28 @@ func main() {
 				list = append(list, hx.Pick(rs, names))
 			}
 		}
-		specs[p] = childSpec{Index: p, Seed: o.Seed*1000 + uint64(p), N: nG, Scenarios: list,
+		specs[p] = childSpec{Mode: "conc", Index: p, Seed: o.Seed*1000 + uint64(p), N: nG, Scenarios: list, SoloDir: o.Out,
 			RaceLog: filepath.Join(o.Out, fmt.Sprintf("race_%d", p)), Out: filepath.Join(o.Out, fmt.Sprintf("child_%d.json", p))}
+	}
+	// solo children: the distinct scenarios of all rounds, spread over a few processes
+	usedSet := map[string]bool{}
+	for _, sp := range specs {
+		for _, n := range sp.Scenarios {
+			usedSet[n] = true
+		}
+	}
+	used := hx.SortedKeys(usedSet)
+	nSolo := 4
+	if len(used) < nSolo {
+		nSolo = len(used)
+	}
+	soloSpecs := make([]childSpec, nSolo)
+	for i := range soloSpecs {
+		soloSpecs[i] = childSpec{Mode: "solo", Index: 1000 + i, Seed: o.Seed, N: nG, SoloDir: o.Out,
+			RaceLog: filepath.Join(o.Out, fmt.Sprintf("solorace_%d", i)), Out: filepath.Join(o.Out, fmt.Sprintf("solo_child_%d.json", i))}
+	}
+	for i, n := range used {
+		soloSpecs[i%nSolo].Scenarios = append(soloSpecs[i%nSolo].Scenarios, n)
 	}
 
 	exe, err := os.Executable()
@@ -998,10 +1024,51 @@ func main() {
 		err      error
 		timedOut bool
 	}
-	runs := make([]childRun, nProc)
+	perChild := time.Duration(60+nRounds*20) * time.Second
 	sem := make(chan struct{}, 3) // at most 3 children at a time (8-32 goroutines each; 16 shared cores)
 	var wg sync.WaitGroup
-	perChild := time.Duration(60+nRounds*20) * time.Second
+	// 1. solo runs (their outputs are read by the concurrent children)
+	soloErrs := make([]string, nSolo)
+	for i := range soloSpecs {
+		wg.Add(1)
+		go func(i int) {
+			defer wg.Done()
+			sem <- struct{}{}
+			defer func() { <-sem }()
+			sp := soloSpecs[i]
+			specPath := filepath.Join(o.Out, fmt.Sprintf("solospec_%d.json", i))
+			b, _ := json.Marshal(sp)
+			os.WriteFile(specPath, b, 0o644)
+			cmd := exec.Command(exe, "-child", specPath, "-out", o.Out, "-prop", o.Prop)
+			cmd.Env = append(os.Environ(), "GORACE=halt_on_error=0 history_size=2 log_path="+sp.RaceLog)
+			var eb bytes.Buffer
+			cmd.Stderr, cmd.Stdout = &eb, &eb
+			done := make(chan error, 1)
+			if err := cmd.Start(); err != nil {
+				soloErrs[i] = err.Error()
+				return
+			}
+			go func() { done <- cmd.Wait() }()
+			select {
+			case err := <-done:
+				if err != nil {
+					soloErrs[i] = fmt.Sprintf("%v: %s", err, truncate(eb.String(), 2000))
+				}
+			case <-time.After(perChild * 2):
+				cmd.Process.Kill()
+				<-done
+				soloErrs[i] = "timeout"
+			}
+		}(i)
+	}
+	wg.Wait()
+	for i, e := range soloErrs {
+		if e != "" {
+			res.Fail("crash:solo-run:"+crashClass(e), map[string]any{"scenarios": soloSpecs[i].Scenarios}, "a script run ALONE crashed: "+e)
+		}
+	}
+	// 2. concurrent rounds
+	runs := make([]childRun, nProc)
 	for p := range specs {
 		wg.Add(1)
 		go func(p int) {
